@@ -7,6 +7,7 @@ from statistics import NormalDist
 
 from ..astutil import (call_name, calls_in, const_value, find_func, is_self_attr, names_in, parse_expr, parse_stmt,
                        replace_node, clone)
+from ..astutil import inline_single_defs
 from ..effects import Effects
 from ..frontend import AnalysisError, walk_function
 from ..nf import to_nf, NFUnsupported, RF, Translator
@@ -162,8 +163,9 @@ def _r9(ctx):
             ds = [d for d in walk_function(fi.node) if isinstance(d, ast.Assign) and any(isinstance(t, ast.Name) and t.id == arr
                                                                                          for t in d.targets)]
             for d in ds:
+                dv = inline_single_defs(fi.node, d.value, keep=(arr,))
                 cols = sorted({(x.attr if isinstance(x, ast.Attribute) else const_value(x.slice))
-                               for x in ast.walk(d.value)
+                               for x in ast.walk(dv)
                                if (isinstance(x, ast.Attribute) and isinstance(x.value, ast.Name) and x.attr in
                                    ("k_1", "k_2", "TN", "TS", "SD", "ND")) or
                                (isinstance(x, ast.Subscript) and const_value(x.slice) in ("k_1", "k_2", "TN", "TS", "SD", "ND"))})
